@@ -388,7 +388,19 @@ impl Prop for C06T {
             }
             // the twin history must behave through process as through run, else
             // the difference is C07's subject
-            if refp.handlers() == ref_run.handlers() && refp.responses() == ref_run.responses() && refp.errors().is_empty() {
+            // ... and heapless::Vec (the writer process uses) must receive the same bytes as the
+            // recording writer for the fault-free twins, else the difference is C04's subject
+            let mut writers_agree = true;
+            for m in sc.msgs.iter().filter(|m| m.faulty().is_some()) {
+                let gb = good_of(m).render();
+                let l = gb.len();
+                let x = exec(&run_exec(sc, gb.clone(), vec![0, l], Sink::Heapless4096, vec![]), st);
+                let y = exec(&run_exec(sc, gb, vec![0, l], Sink::Sim(None), vec![]), st);
+                writers_agree &= x.responses() == y.responses();
+            }
+            if !writers_agree {
+                st.bump("skip:writers-disagree(C04)");
+            } else if refp.handlers() == ref_run.handlers() && refp.responses() == ref_run.responses() && refp.errors().is_empty() {
                 let c = exec(&process_exec(sc, h_bytes.clone(), 0), st);
                 if c.crashed() {
                     return Verdict::Skip("skip:crashed(C05)");
